@@ -7,7 +7,7 @@ the model (parameter -> next definition outward, never the fixture itself; funct
 fixture itself), references of every link are compared with the model's reverse relation, and the
 real server's definition / hover / references / call-hierarchy / implementation are checked too.
 """
-import os, shutil
+import os, re, shutil
 
 from .. import gen
 from ..common import Inconclusive
@@ -126,6 +126,8 @@ def run(ctx):
         pinned(ctx, vh)
         if os.environ.get("VERIF_ONLY_PINNED"):
             return
+        directed_two_links_in_one_file(ctx, vh)
+        directed_new_file_through_symlink(ctx)
         for i in range(n):
             root = ctx.scratch(f"c{i}")
             ws = gen_chain(root, ctx.rng)
@@ -165,6 +167,128 @@ def run(ctx):
             shutil.rmtree(root, ignore_errors=True)
     finally:
         vh.close()
+
+
+DIRECTED_CONF = "import pytest\n\n@pytest.fixture\ndef res():\n    return 0\n"
+DIRECTED_TEST = ("import pytest\n\n"                                              # 1-2
+                 "@pytest.fixture\ndef res(res):\n    return res + 1\n\n"          # 3-6: module-level link (def on line 4)
+                 "def test_module_level(res):\n    pass\n\n"                      # 7-9
+                 "class TestGamma:\n"                                             # 10
+                 "    @pytest.fixture\n    def res(self, res):\n        return res + 1\n\n"   # 11-14: class-level link (def on line 12)
+                 "    def test_in_class(self, res):\n        pass\n")             # 15-16
+
+
+def directed_two_links_in_one_file(ctx, vh):
+    """two links of one chain in ONE file, unambiguous for pytest: a class-level override (the last definition of the name in
+    the file) requests the module-level one above it, which requests the conftest's.  Navigation from each parameter goes
+    one link outward; each link's references are exactly the usages that resolve to it."""
+    root = ctx.scratch("two_links")
+    files = {"conftest.py": DIRECTED_CONF, "test_links.py": DIRECTED_TEST}
+    from ..common import write_tree
+    write_tree(root, files)
+    conf, test = os.path.join(root, "conftest.py"), os.path.join(root, "test_links.py")
+    lines = DIRECTED_TEST.split("\n")
+    for how in ("scan", "open_test_last", "open_conftest_last"):
+        db = vh.new_db()
+        vh.call(op="scan", db=db, root=root)
+        if how == "open_test_last":
+            vh.call(op="analyze", db=db, path=test, text=DIRECTED_TEST)
+        elif how == "open_conftest_last":
+            vh.call(op="analyze", db=db, path=conf, text=DIRECTED_CONF)
+        # (line, occurrence index of 'res' on the line) -> expected target.  Only what both the statement and "the last
+        # definition of a file wins" agree on is judged: the class-level parameter goes one link outward (to the module-level
+        # definition of the same file, not past the file and never to its own fixture), the class's test binds to the class-level
+        # link.  Where the module-level parameter and the module-level test go is not judged (the implementation has no class
+        # scoping: "last one in the file" - C01's statement allows that).
+        want = {(12, 1): (test, 4), (15, 0): (test, 12)}
+        for (ln, occ), exp in want.items():
+            text = lines[ln - 1]
+            cols = [m_.start() for m_ in re.finditer(r"\bres\b", text)]
+            c0 = cols[occ]
+            for col in range(c0, c0 + 3):
+                act = _vh_goto(vh, db, test, ln, col)
+                ctx.judged()
+                if act != exp:
+                    ctx.violation({"kind": "two-links-in-one-file", "how": how, "line": ln, "col": col,
+                                   "expected": [os.path.relpath(exp[0], root), exp[1]],
+                                   "actual": [os.path.relpath(act[0], root), act[1]] if act else None}, {}, files=files)
+                    break
+        # references are the reverse relation: the class-level parameter is listed under the module-level link and under no
+        # other; the class's test under the class-level link
+        p12 = (test, 12, [m_.start() for m_ in re.finditer(r"\bres\b", lines[11])][1])
+        t15 = (test, 15, [m_.start() for m_ in re.finditer(r"\bres\b", lines[14])][0])
+        r_mod, r_cls, r_conf = (_vh_refs(vh, db, test, 4, "res") or []), (_vh_refs(vh, db, test, 12, "res") or []), (_vh_refs(vh, db, conf, 4, "res") or [])
+        ctx.judged()
+        if p12 not in r_mod or p12 in r_cls or p12 in r_conf or t15 not in r_cls or t15 in r_mod or t15 in r_conf:
+            ctx.violation({"kind": "two-links-in-one-file-references", "how": how},
+                          {"module_level": [list(x[1:]) for x in r_mod], "class_level": [list(x[1:]) for x in r_cls],
+                           "conftest": [list(x[1:]) for x in r_conf]}, files=files)
+        ctx.nontrivial(("directed_two_links_in_one_file", how))
+        vh.call(op="drop_db", db=db)
+    shutil.rmtree(root, ignore_errors=True)
+
+
+def directed_new_file_through_symlink(ctx):
+    """real server, workspace named through a symbolic link: a NEW module (not on disk yet) with an override is opened
+    through the link, then saved and changed again; navigation from the override's parameter goes to the conftest's
+    definition, the module's test binds to the override - before the save and after it"""
+    from ..common import write_tree
+    base = ctx.scratch("symlink_new")
+    real = os.path.realpath(os.path.join(base, "real_ws"))
+    files = {"conftest.py": DIRECTED_CONF, "a/__init__.py": "", "a/test_old.py": "def test_o(res):\n    pass\n"}
+    write_tree(real, files)
+    link = os.path.join(os.path.realpath(base), "link_ws")
+    os.symlink(real, link)
+    new_text = "import pytest\n\n@pytest.fixture\ndef res(res):\n    return res + 1\n\ndef test_new(res):\n    pass\n"
+    srv = LSP(srv_bin(), link, locklog=os.path.join(ctx.scratch_root, "lock_srv.log"))
+    try:
+        srv.initialize()
+        f_link = os.path.join(link, "a", "test_new.py")
+        f_real = os.path.join(real, "a", "test_new.py")
+        conf_real = os.path.join(real, "conftest.py")
+
+        def goto(line0, col):
+            r = srv.definition(f_link, line0, col)
+            if not r["answered"]:
+                raise Inconclusive("definition unanswered")
+            res = r.get("result")
+            if not res:
+                return None
+            res = res[0] if isinstance(res, list) else res
+            return (os.path.realpath(uri_to_path(res["uri"])), res["range"]["start"]["line"] + 1)
+
+        def judge(phase):
+            for (line0, col, exp, what) in ((3, 8, (conf_real, 4), "override-parameter"), (6, 13, (f_real, 4), "test-parameter")):
+                act = goto(line0, col)
+                ctx.judged()
+                if act != exp:
+                    ctx.violation({"kind": "new-module-through-symlink", "phase": phase, "what": what,
+                                   "expected": [os.path.relpath(exp[0], real), exp[1]],
+                                   "actual": [os.path.relpath(act[0], real), act[1]] if act else None}, {}, files=files | {"a/test_new.py": new_text})
+            ctx.nontrivial(("directed_new_module_through_symlink", phase))
+
+        before = srv.seq
+        srv.did_open(f_link, new_text)
+        srv.wait_diagnostics(f_link, before, timeout=20)
+        judge("unsaved")
+        write_tree(real, {"a/test_new.py": new_text})
+        before = srv.seq
+        srv.did_change(f_link, new_text)
+        srv.wait_diagnostics(f_link, before, timeout=20)
+        judge("saved")
+        before = srv.seq
+        srv.did_change(f_link, "\n" + new_text)
+        srv.wait_diagnostics(f_link, before, timeout=20)
+        for (line0, col, exp, what) in ((4, 8, (conf_real, 4), "override-parameter"), (7, 13, (f_real, 5), "test-parameter")):
+            act = goto(line0, col)
+            ctx.judged()
+            if act != exp:
+                ctx.violation({"kind": "new-module-through-symlink", "phase": "saved+edited", "what": what,
+                               "expected": [os.path.relpath(exp[0], real), exp[1]],
+                               "actual": [os.path.relpath(act[0], real), act[1]] if act else None}, {}, files=files)
+    finally:
+        srv.shutdown()
+        shutil.rmtree(base, ignore_errors=True)
 
 
 def _vh_goto(vh, db, f, line1, col):
